@@ -3,10 +3,11 @@ import math
 
 from harness import dtwgen
 
-COQ_FILES = ["theories/Cluster.v", "props/C15.v"]
+COQ_FILES = ["theories/Cluster.v", "theories/ClusterPart.v", "props/C15.v"]
 THEOREMS = [("DVProps.C15", n) for n in ("C15_merges_nondecreasing", "C15_merges_bounded",
                                          "C15_stops_only_when_none_left", "C15_absorbed_never_reused",
-                                         "C15_at_most_n_minus_1_merges", "C15_row_major_policy_ok")]
+                                         "C15_at_most_n_minus_1_merges", "C15_row_major_policy_ok",
+                                         "C15_clusters_partition", "C15_run_merges_well_formed", "C15_fit_partitions")]
 TRUSTED_BASE = [
     "Coq 8.16.1 kernel",
     "Hierarchical.fit is hand-modelled (Cluster.run over the list of finite matrix entries; choice among minima and "
@@ -70,7 +71,13 @@ def expected(cases, oracle):
         hl.append("hfit %d %d %d %s" % (n, md2, len(ent), " ".join("%d %d %d" % e for e in ent)))
     ha = oracle.query(hl)
     for e, a in zip(out, ha):
-        e["merges"] = None if a.startswith("ERR") else [[int(x) for x in t.split(",")] for t in a.split()]
+        if a.startswith("ERR"):
+            e["merges"], e["clusters"] = None, None
+            continue
+        ms, _, cs = a.partition(" | ")
+        e["merges"] = [[int(x) for x in t.split(",")] for t in ms.split()]
+        # the cluster dictionary as Hierarchical.fit builds it (ClusterPart.clusters_model on the model's merges)
+        e["clusters"] = {int(t.split(":")[0]): sorted(int(x) for x in t.split(":")[1].split(",")) for t in cs.split()}
     return out
 
 
@@ -197,6 +204,8 @@ def judge(case, got, exp):
         mm = [[i, f, math.sqrt(v)] for i, f, v in exp["merges"]]
         if mm != ms:
             return {"kind": "merge-sequence-differs-from-model", "got": ms, "model": mm}
+        if exp.get("clusters") is not None and {k: sorted(v) for k, v in cl.items()} != exp["clusters"]:
+            return {"kind": "clusters-differ-from-dictionary-model", "got": cl, "model": exp["clusters"]}
     if "clusters2" in g and {int(k): v for k, v in g["clusters2"].items()} != cl:
         return {"kind": "refit-differs", "first": cl, "second": g["clusters2"]}
     return None
